@@ -88,18 +88,17 @@ def digitsVal : Str → Nat → Option Nat
   | [], acc => some acc
   | b :: t, acc => if isDigit b then digitsVal t (acc * 10 + (b - 48)) else none
 
+/-- `from_str_radix` for an unsigned type strips one leading `+` (a `-` stays and is an invalid
+digit). -/
+def stripPlus : Str → Str
+  | 43 :: t => t
+  | s => s
+
 /-- `s.parse::<u16>()` exactly: empty fails, a lone sign fails, one leading `+` is accepted, `-` is
 an invalid digit, any number of leading zeros, overflow beyond 65535 fails. -/
 def parseU16 (s : Str) : Option Nat :=
-  match s with
-  | [] => none
-  | [43] => none
-  | [45] => none
-  | _ =>
-    let ds := match s with
-      | 43 :: t => t
-      | _ => s
-    match digitsVal ds 0 with
+  if s = [] ∨ s = [43] ∨ s = [45] then none
+  else match digitsVal (stripPlus s) 0 with
     | some v => if v ≤ 65535 then some v else none
     | none => none
 
@@ -128,20 +127,23 @@ def endOfHost (x : Ext) (s : Str) : Res Nat :=
     | .ok h => if e = 0 || h.any (fun b => !hostByteOk b) then .err else .ok e
     | _ => .panic
 
+/-- The final `if` of `server_name::validate`: nothing after the host, or `":" port`. -/
+def checkPort (s : Str) (e : Nat) : Res Unit :=
+  if s.length = e then .ok ()
+  else match s[e]? with
+    | none => .panic
+    | some b =>
+      if b ≠ 58 then .err
+      else match sliceFrom s (e + 1) with
+        | .ok p => if isValidPort p then .ok () else .err
+        | _ => .panic
+
 def serverNameValidate (x : Ext) (s : Str) : Res Unit :=
   if s = [] then .err
   else match endOfHost x s with
     | .err => .err
     | .panic => .panic
-    | .ok e =>
-      if s.length = e then .ok ()
-      else match s[e]? with
-        | none => .panic
-        | some b =>
-          if b ≠ 58 then .err
-          else match sliceFrom s (e + 1) with
-            | .ok p => if isValidPort p then .ok () else .err
-            | _ => .panic
+    | .ok e => checkPort s e
 
 /-! ## `lib.rs`: `validate_id`, `parse_id`, localpart check -/
 
@@ -230,9 +232,12 @@ def eventIdValidate (x : Ext) (s : Str) : Res Unit :=
 
 /-! ## Opaque-ish identifier types -/
 
-/-- `s.chars().all(|c| c.is_alphanumeric() || extra(c))` for ASCII `extra`. -/
+/-- `s.chars().all(|c| c.is_alphanumeric() || extra(c))` for ASCII `extra`: every ASCII byte is
+alphanumeric or `extra`, and every non-ASCII character is alphanumeric (the external verdict, asked
+only when there is a non-ASCII byte). -/
 def allUniAlnumOr (x : Ext) (extra : Nat → Bool) (s : Str) : Bool :=
-  s.all (fun b => decide (128 ≤ b) || isAlnum b || extra b) && x.uniAlnum s
+  s.all (fun b => decide (128 ≤ b) || isAlnum b || extra b)
+    && (s.all (fun b => decide (b < 128)) || x.uniAlnum s)
 
 def base64PublicKeyValidate (x : Ext) (s : Str) : Res Unit :=
   if s = [] then .err
